@@ -38,6 +38,8 @@ func init() {
 			{ID: "C09.18", Desc: "a stored variant stays referenced when another exchange for the URI writes the list back", Run: func(c *Ctx) { ruleIndexUpdateAtomic(c, "C09.18") }, MinSites: 1},
 			{ID: "C09.19", Desc: "equal nominated values in another order normalise to the same text (no buffer shared between list members)", Run: func(c *Ctx) { ruleScratchReuseEscapes(c, "C09.19") }, MinSites: 1},
 			{ID: "C09.20", Desc: "a background validation writes back into the list its position refers to (another variant keeps its reference and stays a HIT)", Run: func(c *Ctx) { ruleC08_9(c); renameRule(c, "C08.9", "C09.20") }, MinSites: 1},
+			{ID: "C09.21", Desc: "a Date ahead of the local clock does not age the response (apparent age clamped at zero, all RFC terms)", Run: func(c *Ctx) { ruleC01_4(c); renameRule(c, "C01.4", "C09.21") }, MinSites: 3},
+			{ID: "C09.22", Desc: "min-fresh is measured against the freshness lifetime (Expires, heuristic), not the max-age value", Run: func(c *Ctx) { ruleMinFreshAgainstLifetime(c, "C09.22") }, MinSites: 1},
 		},
 	})
 }
